@@ -76,6 +76,30 @@ theorem placement_y (A L R : Q) :
   constructor <;> rw [abs_le] <;> constructor <;>
     (simp only [y, lineHeight] at *; linarith)
 
+/-- **C14.3 (horizontal placement)**.  `W` = the advance in bitmap pixels (`advance·R/H`, rational), `R` the
+bitmap width (square bitmap, `W ≥ R`): the un-nudged `x_offset = max(round((round W − R)/2), 0)` is within ¾ of
+a pixel of the centred position `(W − R)/2`. -/
+theorem placement_x (W : Q) (R : Int) (hW : (R : Q) ≤ W) :
+    let wp : Int := roundHalfEven W
+    let x : Int := max (roundHalfEven (((wp - R : Int) : Q) / 2)) 0
+    |(x : Q) - (W - R) / 2| ≤ 3/4 := by
+  intro wp x
+  have h1 := roundHalfEven_close W
+  have h2 := roundHalfEven_close (((wp - R : Int) : Q) / 2)
+  rw [abs_le] at h1 h2
+  push_cast at h2
+  rw [abs_le]
+  simp only [x]
+  rcases le_total (roundHalfEven (((wp - R : Int) : Q) / 2)) 0 with h | h
+  · rw [max_eq_right h]
+    have h' : ((roundHalfEven (((wp - R : Int) : Q) / 2) : Int) : Q) ≤ 0 := by exact_mod_cast h
+    push_cast at h'
+    simp only [wp] at *
+    constructor <;> push_cast <;> linarith
+  · rw [max_eq_left h]
+    simp only [wp] at *
+    constructor <;> push_cast <;> linarith
+
 /-- `|L − R| ≤ H/(2·upem)`: the strike is chosen so that the em is (almost) `R` pixels tall. -/
 theorem em_height_close (upem H R p : Q) (hu : 0 < upem) (hH : 0 < H) (hp : |p - upem * R / H| ≤ 1/2) :
     |H * p / upem - R| ≤ H / (2 * upem) := by
